@@ -495,6 +495,7 @@ func runC06(c *core.Ctx) {
 		}
 	}
 	c06SummaryNoToday(c, summaryZones)
+	c06SummaryLastSecond(c, summaryZones)
 	c06SubSecond(c, [][]string{{"print"}, {"csv", "log"}, {"reg"}, {"report", "quantity"}})
 	dir := filepath.Join(c.Work, "summary")
 	type target struct {
@@ -670,6 +671,59 @@ func c06SubSecond(c *core.Ctx, cmds [][]string) {
 							caseDoc{Files: files, Args: args, Expected: resDoc(ref), Observed: resDoc(res)})
 					}
 				}
+			}
+		}
+	}
+}
+
+// c06SummaryLastSecond: summary DATE takes the whole calendar day, up to its last instant.
+func c06SummaryLastSecond(c *core.Ctx, zones []string) {
+	dir := filepath.Join(c.Work, "summary-last-second")
+	for li, layout := range []string{"2006/01/02 15:04:05.000", "2006/01/02 15:04:05", "2006/01/02 15:04:05.000000000"} {
+		stamps := []string{"2021/03/04 23:59:59.999", "2021/03/05 00:00:00", "2021/03/05 12:00:00", "2021/03/05 23:59:59", "2021/03/05 23:59:59.250", "2021/03/05 23:59:59.999", "2021/03/06 00:00:00"}
+		if li == 0 {
+			stamps[1], stamps[2], stamps[3], stamps[6] = "2021/03/05 00:00:00.000", "2021/03/05 12:00:00.000", "2021/03/05 23:59:59.000", "2021/03/06 00:00:00.000"
+		}
+		if li == 2 {
+			for k := range stamps {
+				if !strings.Contains(stamps[k], ".") {
+					stamps[k] += ".000000000"
+				} else {
+					stamps[k] += "999999"
+				}
+			}
+		}
+		block := func(k int) string { return fmt.Sprintf("%s:\n  food%d: %d\n", stamps[k], k, k+1) }
+		full, day := "", ""
+		order := []int{3, 0, 5, 1, 6, 4, 2}
+		for _, k := range order {
+			full += block(k)
+			if k >= 1 && k <= 5 {
+				day += block(k)
+			}
+		}
+		files := map[string]string{"food.yaml": c06Book, "log.yaml": full, "logr.yaml": day}
+		run.WriteFiles(dir, files)
+		pre := []string{"--no-color", "-d", "food.yaml", "--date-format", layout}
+		arg := stamps[2]
+		ref := run.Exec(c.HR, append(append(append([]string{}, pre...), "-l", "logr.yaml"), "summary", arg), run.ExecOpts{Dir: dir, Env: map[string]string{"TZ": "UTC"}})
+		for _, z := range zones {
+			args := append(append(append([]string{}, pre...), "-l", "log.yaml"), "summary", arg)
+			res := run.Exec(c.HR, args, run.ExecOpts{Dir: dir, Env: map[string]string{"TZ": z}})
+			c.Eval(2)
+			c.Count("runs_summary_last_second", 1)
+			c.Nontrivial("summary-last-second", z, fmt.Sprint(li))
+			// the reference run is made by the same program: also count the headings of the day directly
+			missing := ""
+			for k := range stamps {
+				has := strings.Contains(res.Out, fmt.Sprintf("food%d", k))
+				if (k >= 1 && k <= 5) != has {
+					missing += fmt.Sprintf(" food%d(%s):shown=%v", k, stamps[k], has)
+				}
+			}
+			if ref.Exit != 0 || res.Exit != ref.Exit || res.Out != ref.Out || missing != "" {
+				c.Violation("summary|last-second-of-the-day", fmt.Sprintf("summary %q under layout %q, TZ=%s: differs from the summary of the log restricted to the five headings of that calendar day (00:00:00 ... 23:59:59.999)%s", arg, layout, z, missing),
+					caseDoc{Files: files, Args: args, Env: map[string]string{"TZ": z}, Expected: resDoc(ref), Observed: resDoc(res)})
 			}
 		}
 	}
